@@ -7,6 +7,7 @@
      backup_manager.BackupManager.restore_backup / get_task  (cli/run_remodel_restore.main)  -> Restore
      cli/run_remodel.main (handle_backup, parse_tasks, run_direct_ops) +
      dispatcher.Dispatcher.get_data_file (reads the BACKUP copy)                    -> Remodel
+   IOFail / Retry: an I/O error raised at a step of the copy loop and create_backup called again on the SAME manager object.
    One action per MUTATING file-system operation of a backup creation (mkdir,
    creating the destination of a copy, one chunk written, copystat, open/write/close
    of backup_lock.json); the conformance harness (vf/fsstep.py, vf/props/c18.py)
@@ -118,7 +119,7 @@ AfterBk(s, ds) == IF Missing(BK, ds) # {} THEN "mkbk"
                        IF sc.res = "raises" THEN "failed"
                        ELSE IF sc.res = "lists" /\ ~OVERWRITE THEN "refused"
                        ELSE AfterRoot(s, ds)
-Running == pc \notin {"idle", "dead"}
+Running == pc \notin {"idle", "dead", "caught"}
 
 \* LAST conjuncts of every action: land on the next pc, remember the action, log the post-state
 Land(p, opname, code) ==
@@ -225,6 +226,29 @@ Crash == /\ Running /\ crashes < MaxCrash
          /\ UNCHANGED <<tree, data, bk, lock, dirs, sel, fi, wr, mem, snap, donebk, creates, nops, nmod, prevop, pre>>
          /\ Log(<<>>)
 
+\* An I/O error (disk full, ...) at a file-system step of the copy loop: the operation does not happen, create_backup
+\* lets the exception through.  The process and the MANAGER OBJECT live on; the backup is not in the object's table yet.
+FailSteps == {"mkdir", "copy_open", "copy_write", "copy_meta"}
+IOFail == /\ pc \in FailSteps /\ crashes < MaxCrash
+          /\ crashes' = crashes + 1
+          /\ pc' = "caught"
+          /\ lastop' = Op("iofail", <<>>, 0, "raised", "OSError")
+          /\ UNCHANGED <<tree, data, bk, lock, dirs, sel, fi, wr, mem, snap, donebk, creates, nops, nmod, prevop, pre>>
+          /\ Log(<<>>)
+\* the caller calls create_backup AGAIN ON THE SAME OBJECT with the same file list: the name is not in the object's table,
+\* makedirs(exist_ok), and EVERY file is copied anew (a partial copy left by the failed attempt is overwritten)
+Retry == /\ pc = "caught" /\ creates < MaxCreate
+         /\ creates' = creates + 1 /\ fi' = 1 /\ wr' = 0 /\ mem' = <<>>
+         /\ UNCHANGED <<tree, data, bk, lock, dirs, sel, snap, crashes, nops, nmod, prevop, pre>>
+         /\ Land(AfterRoot(sel, dirs), "retry", "")
+         /\ Log(<<>>)
+\* ... or the process is killed / ends there
+CrashCaught == /\ pc = "caught"
+               /\ pc' = "dead"
+               /\ lastop' = Op("crash", <<>>, 0, "crashed", "")
+               /\ UNCHANGED <<tree, data, bk, lock, dirs, sel, fi, wr, mem, snap, donebk, crashes, creates, nops, nmod, prevop, pre>>
+               /\ Log(<<>>)
+
 \* a FRESH process constructs BackupManager(data_root): makes the backups directory, scans
 Reopen == /\ pc = "dead"
           /\ dirs' = dirs \cup Prefixes(BK)
@@ -305,7 +329,7 @@ DamageAny == \E i \in Idx : Damage(i)
 RestoreAny == \E T \in TaskArgs : Restore(T)
 RemodelAny == \E T \in TaskArgs, o \in OpsIds : Remodel(T, o)
 Next == \/ Start \/ MkBk \/ MkRoot \/ MkDir \/ CopyOpen \/ CopyWrite \/ CopyMeta
-        \/ LockOpen \/ LockWrite \/ LockClose \/ Crash \/ Reopen
+        \/ LockOpen \/ LockWrite \/ LockClose \/ Crash \/ Reopen \/ IOFail \/ Retry \/ CrashCaught
         \/ ModifyAny \/ DeleteAny \/ DamageAny \/ RestoreAny \/ RemodelAny
 Spec == Init /\ [][Next]_vars
 
